@@ -1001,3 +1001,115 @@ Proof.
   split; [vm_compute; reflexivity|]. split; [vm_compute; reflexivity|]. split; [vm_compute; reflexivity|].
   vm_compute. left. reflexivity.
 Qed.
+(* ================================================================ ADDENDUM (agent MA): the
+   consistency rules of the aggregation plan -- argument counts of aggregate functions, the
+   constant second argument of quantile / group_concat -- which AggregatePlan.Init and the
+   constructors of aggr_func.go test when the plan is built (Model/AggInit.v,
+   Proofs/AggInitProofs.v).
+
+   DEFECT found while writing the twin (repaired in checkFunctionCalls, optimizer.go): argument
+   counts of AGGREGATE functions were tested by AggregatePlan.Init only, i.e. on the select fields
+   the constant folder left behind.  `select (count(1,2) > 0) & false where true` is folded to
+   `select false`: no aggregate call is left, a ProjectionPlan is built, the statement is
+   ACCEPTED and runs -- a wrong argument count that is not rejected.  The repaired
+   checkFunctionCalls tests the count of aggregate functions next to the scalar ones, before the
+   folder runs ([check_calls_fx]; parse_check_agg with fxa = true).
+
+   "Before any storage access": [init_check] is a function of the statement alone (no storage
+   argument); in the Go code the first storage call of the Init chain (Storage.Cursor in the
+   scan node's Init) is made by a.ChildPlan.Init(), the last statement of AggregatePlan.Init,
+   after every test has passed -- FinalLimitPlan.Init and FinalOrderPlan.Init above it call their
+   child's Init last as well.  The correspondence observes zero storage calls on every rejection. *)
+From KV Require Import Model.StmtParser Model.ParseCheck Model.AggInit Proofs.AggInitProofs.
+
+(* for EVERY query text: a text the repaired front end + Init chain accepts holds no call of an
+   aggregate function with a wrong number of arguments in any tree of its checked statement
+   (select fields, WHERE, PUT pairs, REMOVE keys), at any depth: under operators, !, in call
+   arguments, list items, the base of a field access.  So a wrong count makes the plan builder
+   reject the text -- wherever the call sits, whatever the folder would make of the field *)
+Theorem agg_arity_rejected :
+  forall (fo : fops) (re : string -> string -> res bool) (fmt_v : F fo -> string) (fxq : bool)
+         (q : string) (s : StmtParser.stmt) (c : Checker.stmt) (a : bool),
+  parse_check_agg fo re fmt_v fxq true q = PAOk s c a ->
+  Forall (fun e => has_bad_aggr_arity e = false) (ParseCheck.cstmt_exprs c).
+Proof. exact agg_arity_rejected_thm. Qed.
+Print Assumptions agg_arity_rejected.
+
+(* the stage that does it: what the repaired call validation lets through *)
+Theorem agg_arity_call_validation :
+  forall (c : Checker.stmt),
+  check_stmt_calls_fx c = Ok tt -> Forall (fun e => has_bad_aggr_arity e = false) (ParseCheck.cstmt_exprs c).
+Proof. exact check_stmt_calls_fx_no_bad. Qed.
+Print Assumptions agg_arity_call_validation.
+
+(* the Init chain never panics: `args[1]` in newAggrQuantileFunc / newAggrGroupConcatFunc is
+   reached with two arguments only (listAggrFunctions tests the count first), evaluating the
+   constant argument never panics; the composite never returns a panic, runs out of fuel or
+   returns an error outside the three classes *)
+Theorem agg_init_total :
+  forall (fo : fops) (re : string -> string -> res bool) (fmt_v : F fo -> string) (fxq : bool),
+  (forall p t, re p t <> Panic) ->
+  forall c : Checker.stmt, init_check fo re fmt_v fxq c <> Panic.
+Proof. exact init_check_never_panics_lemma. Qed.
+Print Assumptions agg_init_total.
+
+Theorem parse_check_agg_total :
+  forall (fo : fops) (re : string -> string -> res bool) (fmt_v : F fo -> string) (fxq fxa : bool) (q : string),
+  (forall p t, re p t <> Panic) ->
+  match parse_check_agg fo re fmt_v fxq fxa q with PAPanic | PAFuel | PAOther => False | _ => True end.
+Proof. exact parse_check_agg_total_thm. Qed.
+Print Assumptions parse_check_agg_total.
+
+(* with the pinned call validation the composite is, literally, parse_check followed by the Init
+   chain when buildFinalPlan builds an AggregatePlan *)
+Theorem agg_init_no_storage_by_construction :
+  forall (fo : fops) (re : string -> string -> res bool) (fmt_v : F fo -> string) (fxq : bool) (q : string),
+  parse_check_agg fo re fmt_v fxq false q =
+  match ParseCheck.parse_check fo re fmt_v q with
+  | PCOk s c true =>
+      match init_check fo re fmt_v fxq c with
+      | Ok _ => PAOk s c true
+      | Err e => PAInitErr e
+      | Panic => PAPanic
+      | OutOfModel => PAOutOfModel
+      end
+  | PCOk s c false => PAOk s c false
+  | PCErr k z => PAErr k z
+  | PCOutOfModel => PAOutOfModel
+  | PCPanic => PAPanic
+  | PCFuel => PAFuel
+  | PCOther => PAOther
+  end.
+Proof. exact parse_check_agg_pinned_is_parse_check_then_init. Qed.
+Print Assumptions agg_init_no_storage_by_construction.
+
+(* non-vacuity + the witnesses of the two defects.  (1) the repaired validation rejects the wrong
+   count at the call (8: `count`), wherever it sits; the PINNED one accepts the text as a
+   projection although its checked field holds the faulty call.  (2) a wrong count in a field
+   that keeps its aggregate was always rejected, by AggregatePlan.Init (ExecuteError at the
+   call), now by the call validation.  (3) quantile's parameter: after the repair a negative
+   parameter is rejected when the plan is built (ExecuteError at the argument); the pinned test
+   `percent > 1.0` accepts it (and the quantile stream panics while the rows are computed). *)
+From KV Require Import Base.Flt.
+Example agg_arity_rejected_nonvacuous :
+  forall (fo : fops) (re : string -> string -> res bool) (fmt_v : F fo -> string) (fxq : bool),
+  let q := "select (count(1,2) > 0) & false where true" in
+  parse_check_agg fo re fmt_v fxq true q = PAErr KCalls 8%Z /\
+  (exists s f w o, parse_check_agg fo re fmt_v fxq false q = PAOk s (Checker.SSelect [f] w o) false /\
+                   has_bad_aggr_arity (snd f) = true) /\
+  parse_check_agg fo re fmt_v fxq true "select key, 1 + sum(value, 1) where true group by key" = PAErr KCalls 16%Z /\
+  parse_check_agg fo re fmt_v fxq false "select key, 1 + sum(value, 1) where true group by key" = PAInitErr (EExec 16) /\
+  parse_check_agg fo re fmt_v fxq true "select upper(group_concat(key)) where true" = PAErr KCalls 13%Z /\
+  (exists s c, parse_check_agg fo re fmt_v fxq true "select key, 1 + sum(value) where true group by key" = PAOk s c true).
+Proof.
+  intros fo re fmt_v fxq q. subst q. split; [vm_compute; reflexivity|].
+  split; [do 4 eexists; split; vm_compute; reflexivity|].
+  split; [vm_compute; reflexivity|]. split; [vm_compute; reflexivity|]. split; [vm_compute; reflexivity|].
+  eexists. eexists. vm_compute. reflexivity.
+Qed.
+
+Example quantile_parameter_pinned_refuted :
+  let q := "select quantile(value, 0.0 - 0.5) where true" in
+  parse_check_agg prim_fops (fun _ _ => OutOfModel) Fold.pf_fmt_v true true q = PAInitErr (EExec 23) /\
+  (exists s c, parse_check_agg prim_fops (fun _ _ => OutOfModel) Fold.pf_fmt_v false true q = PAOk s c true).
+Proof. split; [vm_compute; reflexivity|]. eexists. eexists. vm_compute. reflexivity. Qed.
